@@ -107,6 +107,11 @@ func (vc *VC) verifyFunction() {
 			f := vc.trBool(env, c.E)
 			vc.assume(st, f)
 		}
+		for _, c := range vc.spec.Invariants {
+			env := vc.specEnv(fr, st, fr.oldSt, nil)
+			vc.assume(st, vc.trBool(env, c.E))
+			vc.note("assumed data-structure invariant on entry of " + vc.fnName() + " (not checked at call sites): " + c.Src)
+		}
 	}
 	// vacuity cover: precondition satisfiable
 	cover := &Obligation{Name: vc.fnName() + "#cover.requires", Fn: vc.fnName(), Pc: st.pc, Goal: "true", NLines: len(vc.lines), Kind: "cover", Vacuity: true}
@@ -207,6 +212,7 @@ type loopInfo struct {
 	body   map[*ssa.BasicBlock]bool
 	back   []*ssa.BasicBlock // sources of back edges
 	ord    int
+	zeroOff map[*ssa.Phi]bool // loop-carried slices kept at literal offset 0
 }
 
 func findLoops(fn *ssa.Function) (map[*ssa.BasicBlock]*loopInfo, []*loopInfo) {
@@ -260,6 +266,12 @@ func blockPos(b *ssa.BasicBlock) token.Pos {
 	var scan func(bb *ssa.BasicBlock)
 	scan = func(bb *ssa.BasicBlock) {
 		for _, in := range bb.Instrs {
+			if _, isPhi := in.(*ssa.Phi); isPhi {
+				continue // a phi carries the position of the variable's declaration
+			}
+			if _, isDbg := in.(*ssa.DebugRef); isDbg {
+				continue
+			}
 			if p := in.Pos(); p.IsValid() && (best == token.NoPos || p < best) {
 				best = p
 			}
